@@ -138,6 +138,12 @@ def Seg.isAmbiguous (s s2 : Seg) : Bool :=
   if s.ignoreName ≠ s2.ignoreName then same
   else s.name ≠ s2.name ∧ s.ambiguousLength = s2.ambiguousLength ∧ same
 
+/-- `Segment.IsAmbiguousPrefix` (D33 repair): `s` is the upper half of a parameter node that was split — the same token as
+`s2` up to the name (or the `-` flag), its literal text a proper prefix of `s2`'s. -/
+def Seg.isAmbiguousPrefix (s s2 : Seg) : Bool :=
+  s.kind ≠ .str ∧ s.kind = s2.kind ∧ s.rule = s2.rule ∧ (s.name ≠ s2.name ∨ s.ignoreName ≠ s2.ignoreName) ∧
+  s.suffix.length < s2.suffix.length ∧ hasPrefix s2.suffix s.suffix
+
 /-- State of the `longestPrefix` scan: `(startIndex, endIndex, inBrace)`; indices are `Int` because
 Go starts them at -10. -/
 def lpLoop : Bytes → Bytes → Nat → Int → Int → Bool → Int
